@@ -277,6 +277,20 @@ fn plans_c17(tier: Tier) -> Vec<Plan> {
     c4.prelude.push(Act::Connect { c: 2, clean: true, will: 0 });
     c4.prelude.push(Act::Sub { c: 1, f: 0, qos: 1 });
     v.push(Plan { cfg: c4, depth_by_devs: if q { vec![4] } else { vec![6, 5] } });
+    // a member that joined twice (two entries in the group's list) before or behind a
+    // member that joined once: where the turn stands when the double member leaves
+    for (order, strategy) in [(0u8, 0u8), (1, 0), (0, 1)] {
+        let mut c6 = mk("C17", 6, 3, &["t"], &["$share/g/t"]);
+        c6.strategy = strategy;
+        let twice = [Act::Sub { c: 1, f: 0, qos: 1 }, Act::Sub { c: 1, f: 0, qos: 1 }];
+        let once = [Act::Sub { c: 2, f: 0, qos: 0 }];
+        if order == 0 {
+            c6.prelude.extend(twice.iter().cloned().chain(once.iter().cloned()));
+        } else {
+            c6.prelude.extend(once.iter().cloned().chain(twice.iter().cloned()));
+        }
+        v.push(Plan { cfg: c6, depth_by_devs: if q { vec![4] } else { vec![6, 5] } });
+    }
     if !q {
         c1.strategy = 2;
         v.push(Plan { cfg: c1, depth_by_devs: vec![6, 5] });
